@@ -44,7 +44,8 @@ Definition pol_le (p q : policy) : Prop :=
      run (delta_reader p fuel cur) bits = Ok (v, r) ->
      run (delta_reader q fuel cur) bits = Ok (v, r) /\ v < 32) /\
   (forall lens u, table_check p lens = Ok u -> table_check q lens = Ok u) /\
-  (runlen_strict q = true -> runlen_strict p = true).
+  (runlen_strict q = true -> runlen_strict p = true) /\
+  sel_clamp p = sel_clamp q.
 
 Section Refine.
   Variables p q : policy.
@@ -80,7 +81,7 @@ Section Refine.
 
   Lemma read_block_le fuel : prog_le (read_block p fuel) (read_block q fuel).
   Proof.
-    unfold read_block.
+    unfold read_block. destruct Hle as [_ [_ [_ Hc]]]. rewrite Hc.
     repeat (apply bind_le; [apply prog_le_refl|intro]).
     apply bind_le; [apply repeat_prog_le; apply read_table_le|intro].
     apply bind_le; [apply read_groups_le|intro]. apply prog_le_refl.
@@ -89,7 +90,7 @@ Section Refine.
   Lemma unrle_le : forall blk prev cnt o,
     unrle (runlen_strict p) prev cnt blk = Ok o -> unrle (runlen_strict q) prev cnt blk = Ok o.
   Proof.
-    destruct Hle as [_ [_ Hs]].
+    destruct Hle as [_ [_ [Hs _]]].
     induction blk as [|c r IH]; intros prev cnt o H; cbn [unrle] in *.
     - destruct (runlen_strict q) eqn:Eq.
       + rewrite (Hs eq_refl) in H. exact H.
@@ -164,7 +165,7 @@ Proof.
     pose proof (win_to_strict closed_ws_true fuel cur bits v r Hc H) as H'. split; [exact H'|].
     eapply strict_delta_range. exact H'.
   - intros lens u H. cbn [table_check lbz_policy ref_policy] in *. apply complete_only_le. exact H.
-  - intro. reflexivity.
+  - split; [intro; reflexivity|reflexivity].
 Qed.
 
 Lemma noexc_le_lbz : pol_le ref_noexc_policy lbz_policy.
@@ -174,7 +175,7 @@ Proof.
     + apply (strict_to_win closed_sw_true); assumption.
     + eapply strict_delta_range. exact H.
   - intros lens u H. exact H.
-  - intro. reflexivity.
+  - split; [intro; reflexivity|reflexivity].
 Qed.
 
 Lemma noexc_le_ref : pol_le ref_noexc_policy ref_policy.
@@ -182,7 +183,7 @@ Proof.
   split; [|split].
   - intros fuel cur bits v r Hc H. split; [exact H|]. eapply strict_delta_range. exact H.
   - intros lens u H. apply complete_only_le. exact H.
-  - intro. reflexivity.
+  - split; [intro; reflexivity|reflexivity].
 Qed.
 
 Lemma ref_le_lenient : pol_le ref_policy ref_lenient_policy.
@@ -190,7 +191,7 @@ Proof.
   split; [|split].
   - intros fuel cur bits v r Hc H. split; [exact H|]. eapply strict_delta_range. exact H.
   - intros lens u H. exact H.
-  - cbn. discriminate.
+  - split; [cbn; discriminate|reflexivity].
 Qed.
 
 Theorem lbz_sound file o : lbz_decode file = Ok o -> ref_decode file = Ok o.
